@@ -66,6 +66,14 @@ def register(reg, prog):
                           'all-up-to-seen': 'forall(m, was_seen(self, m) == (m <= seen))'})
     reg.contract(RW + '.is_initialized', result=BOOL, properties=P,
                  ensures={'def': 'result == (self._index is not None)'})
+    # ---- persistence of the window (C13 relies on it: a window persisted as "uninitialised" must come back uninitialised, so
+    # that Echo recovery is still required after the next start)
+    PERSISTED = VRec({'index': from_term(Opt(INT), fresh(Opt(INT), 'persisted_index')), 'bitfield': from_term(Opt(BITS), fresh(Opt(BITS), 'persisted_bitfield'))})
+    reg.contract(RW + '.initialize_from_persisted', params={'persisted': PERSISTED}, properties=P + ['C13'], only_raises=True,
+                 modifies=['self._index', 'self._bitfield'],
+                 ensures={'index-as-persisted': 'self._index == persisted["index"]',
+                          'bitfield-present-iff-persisted': '(self._bitfield is None) == (persisted["bitfield"] is None)',
+                          'an-uninitialised-window-stays-uninitialised': 'implies(persisted["index"] is None, self._index is None)'})
     register_unprotect(reg, prog)
 
 
